@@ -35,16 +35,16 @@ func c18Exceptions() []exception {
 	return []exception{
 		{"engine.aggregateRows", "].(int64)", "aggregate accumulators: projectColumns seeds every COUNT/AVG column of every row with an int64 and aggregateRows stores int64 back", sideAccumulators},
 		{"engine.EvaluateInsert", "QueryExpression.(sql.TableValueConstructor)", "the parser's Insert production and csvimport store a TableValueConstructor before the statement can be evaluated", sideInsertSource},
-		{"engine.projectColumns", "selectList[0]", "Parser.SelectList never returns an empty list on success", sideSelectListNonEmpty},
+		{"engine.projectColumns", "[0]", "Parser.SelectList never returns an empty list on success", sideSelectListNonEmpty},
 		{"engine.EvaluateCreateTable", "panic", "every table element the parser appends has one of the four column types assigned", sideColumnTypeAssigned},
 		{"engine.sortColumns", "panic", "row values are produced by Tuple.Decode (int64, string, bool) or are absent/NULL (handled by the nil arm)", sideRowValueTypes},
 		{"storage.", ".Value.(*cacheEntry)", "every element pushed on the LRU list holds a *cacheEntry", sideLRUElements},
-		{"storage.(*FieldDef).Validate", "val.(int64)", "dominated by the reflect.Kind test of the same arm", sideValidateKind},
-		{"storage.(*Tuple).Encode", "val.(", "the value passed Validate for this column type (C08.1) and Validate's arm demands the asserted kind (C08.2)", sideEncodeValidated},
-		{"storage.(*RelationService).getRelationFileOffset", "tuple.Vals[", "catalog row decoded with the fixed sys_pages schema, whose writers fill every column", sideCatalogSchemas},
-		{"storage.(*RelationService).getRelationSchema", "tuple.Vals[", "catalog row decoded with the fixed sys_schema schema, whose writers fill every column", sideCatalogSchemas},
-		{"storage.(*BTree).scanRight", "pg.offsets[0]", "an internal node always holds at least one cell: a new root is created with one, and an internal split keeps floor(n/2) >= 1 and moves n-floor(n/2)-1 >= 1 cells for n = maxInternalNodeCells >= 3", sideInternalNonEmpty},
-		{"storage.(*btreeNode).split", "newPg.offsets[0]", "a leaf is split only when it is full (C11.2), so the moved upper half [mid,len) is non-empty for maxLeafNodeCells >= 2", sideLeafSplitNonEmpty},
+		{"storage.(*FieldDef).Validate", ".(int64)", "dominated by the reflect.Kind test of the same arm", sideValidateKind},
+		{"storage.(*Tuple).Encode", ".(", "the value passed Validate for this column type (C08.1) and Validate's arm demands the asserted kind (C08.2)", sideEncodeValidated},
+		{"storage.(*RelationService).getRelationFileOffset", ".Vals[", "catalog row decoded with the fixed sys_pages schema, whose writers fill every column", sideCatalogSchemas},
+		{"storage.(*RelationService).getRelationSchema", ".Vals[", "catalog row decoded with the fixed sys_schema schema, whose writers fill every column", sideCatalogSchemas},
+		{"storage.(*BTree).scanRight", ".offsets[0]", "an internal node always holds at least one cell: a new root is created with one, and an internal split keeps floor(n/2) >= 1 and moves n-floor(n/2)-1 >= 1 cells for n = maxInternalNodeCells >= 3", sideInternalNonEmpty},
+		{"storage.(*btreeNode).split", ".offsets[0]", "a leaf is split only when it is full (C11.2), so the moved upper half [mid,len) is non-empty for maxLeafNodeCells >= 2", sideLeafSplitNonEmpty},
 		{"storage.(*FieldDef).Validate", "panic", "the switch covers every column type (C19.1); type codes in the catalog are written from validated CREATE TABLE statements", sideEnumTotal},
 		{"storage.(*Tuple).Decode", "panic", "the switch covers every column type (C19.1)", sideEnumTotal},
 		{"storage.(*btreeNode).encodeLeaf", "panic", "page-size arithmetic (C12.2) with the occupancy (C11.2) and value-size (C08.3) bounds makes the encoded size exactly pageSize", always},
@@ -65,6 +65,7 @@ func runC18(c *Ctx) {
 	ruleNoSelfFormat(c, "C18.7", "engine", "storage", "sql")
 	ruleFilledByIndex(c, "C18.8", "storage.ShowDB")
 	ruleNoArithmeticOnStatementInts(c, "C18.9")
+	ruleReflectNil(c, "C18.10", "engine", "storage")
 }
 
 func c18PanicSources(c *Ctx, rule string) {
@@ -155,7 +156,7 @@ func c18PanicSources(c *Ctx, rule string) {
 					if ok {
 						c.OK(rule, key, y.Pos(), 2, "reviewed exception: %s (side condition re-checked)", x.reason)
 					} else {
-						c.Fail(rule, key, y.Pos(), "unchecked assertion whose reviewed justification no longer holds: %s — %s", x.reason, why)
+						excBroken(c, rule, key, y.Pos(), "unchecked assertion", x.reason, why)
 					}
 					return true
 				}
@@ -187,11 +188,15 @@ func c18PanicSources(c *Ctx, rule string) {
 					if ok {
 						c.OK(rule, key, y.Pos(), 2, "reviewed exception: %s (side condition re-checked)", x.reason)
 					} else {
-						c.Fail(rule, key, y.Pos(), "explicit panic whose reviewed justification no longer holds: %s — %s", x.reason, why)
+						excBroken(c, rule, key, y.Pos(), "explicit panic", x.reason, why)
 					}
 					return true
 				}
-				c.Fail(rule, key, y.Pos(), "explicit panic reachable from statement execution")
+				if bad, why := newPanicVerdict(f, y); bad {
+					c.Fail(rule, key, y.Pos(), "explicit panic reachable from statement execution: %s", why)
+				} else {
+					c.Undecided(rule, key, "a new explicit panic at %s that no reviewed argument covers: %s", w.Pos(y.Pos()), why)
+				}
 			case *ast.IndexExpr:
 				cv := f.constOf(y.Index)
 				if cv == nil {
@@ -235,7 +240,7 @@ func c18PanicSources(c *Ctx, rule string) {
 					if ok {
 						c.OK(rule, key, y.Pos(), 2, "reviewed exception: %s (side condition re-checked)", x.reason)
 					} else {
-						c.Fail(rule, key, y.Pos(), "constant index whose reviewed justification no longer holds: %s — %s", x.reason, why)
+						excBroken(c, rule, key, y.Pos(), "constant index", x.reason, why)
 					}
 					return true
 				}
@@ -644,12 +649,13 @@ func sideEncodeValidated(c *Ctx) (bool, string) {
 	sub := NewCtx("C18", c.W)
 	c08ValidateDominates(sub, "x")
 	c08IntRange(sub, "y")
+	keep := NewCtx("C18", c.W)
 	for _, o := range sub.Obs {
-		if o.Status != Discharged && (o.Rule == "x" || strings.Contains(o.Key, "|kind|")) {
-			return false, o.Detail
+		if o.Rule == "x" || strings.Contains(o.Key, "|kind|") {
+			keep.Obs = append(keep.Obs, o)
 		}
 	}
-	return true, ""
+	return subVerdict(keep)
 }
 
 func sideCatalogSchemas(c *Ctx) (bool, string) {
@@ -758,12 +764,13 @@ func sideCatalogSchemas(c *Ctx) (bool, string) {
 func sideEnumTotal(c *Ctx) (bool, string) {
 	sub := NewCtx("C18", c.W)
 	c19EnumTotality(sub, "x")
+	keep := NewCtx("C18", c.W)
 	for _, o := range sub.Obs {
-		if o.Status != Discharged && strings.HasPrefix(o.Key, "storage.") {
-			return false, o.Detail
+		if strings.HasPrefix(o.Key, "storage.") {
+			keep.Obs = append(keep.Obs, o)
 		}
 	}
-	return true, ""
+	return subVerdict(keep)
 }
 
 // ---- C18.2 ------------------------------------------------------------------------------------
@@ -959,12 +966,7 @@ func sideInternalNonEmpty(c *Ctx) (bool, string) {
 	sub := NewCtx("C18", c.W)
 	c11NewRoot(sub, "x")
 	c11ParentUpdate(sub, "y")
-	for _, o := range sub.Obs {
-		if o.Status != Discharged {
-			return false, o.Detail
-		}
-	}
-	return true, ""
+	return subVerdict(sub)
 }
 
 func sideLeafSplitNonEmpty(c *Ctx) (bool, string) {
@@ -975,12 +977,7 @@ func sideLeafSplitNonEmpty(c *Ctx) (bool, string) {
 	sub := NewCtx("C18", c.W)
 	c11Fullness(sub, "x")
 	c11SplitArithmetic(sub, "y")
-	for _, o := range sub.Obs {
-		if o.Status != Discharged {
-			return false, o.Detail
-		}
-	}
-	return true, ""
+	return subVerdict(sub)
 }
 
 // inMatchingTypeSwitchArm: X.(T) inside `switch X.(type) { case T: ... }` (X a plain variable that is not reassigned in the arm).
@@ -1013,4 +1010,33 @@ func inMatchingTypeSwitchArm(f *Func, ta *ast.TypeAssertExpr) bool {
 		return true
 	})
 	return ok
+}
+
+// subVerdict: the side condition of a reviewed exception is a set of obligations decided by other rules.
+func subVerdict(sub *Ctx) (bool, string) {
+	und := ""
+	for _, o := range sub.Obs {
+		switch o.Status {
+		case Violated:
+			return false, o.Detail
+		case Undecided:
+			if und == "" {
+				und = o.Detail
+			}
+		}
+	}
+	if und != "" {
+		return false, "UNDECIDED: " + und
+	}
+	return true, ""
+}
+
+// excBroken reports an exception whose side condition does not hold — as a violation when a rule says it is broken,
+// as undecided when the rules it rests on could not read the code.
+func excBroken(c *Ctx, rule, key string, pos token.Pos, kind, reason, why string) {
+	if strings.HasPrefix(why, "UNDECIDED: ") {
+		c.Undecided(rule, key, "%s at %s rests on a reviewed argument (%s) whose side condition could not be decided: %s", kind, c.W.Pos(pos), reason, strings.TrimPrefix(why, "UNDECIDED: "))
+		return
+	}
+	c.Fail(rule, key, pos, "%s whose reviewed justification no longer holds: %s — %s", kind, reason, why)
 }
